@@ -198,7 +198,7 @@ fn kx_bytes_copy_to_bytes_is_split_to() {
     if n > 0 { assert!(r.as_ptr() as usize == DATA.as_ptr() as usize + off); }
 }
 
-// @ob props=C16,C09,C11,C12 tier=quick kind=Kinf fns=Chain::remaining,Chain::remaining_mut,Take::remaining,Limit::remaining_mut
+// @ob props=C16,C09,C11,C12 tier=quick kind=Kinf fns=Chain::remaining,Chain::remaining_mut,Take::remaining,Limit::remaining_mut,Limit::set_limit,Take::set_limit,limit::new,take::new
 #[kani::proof]
 fn kx_chain_remaining_saturates_for_every_usize() {
     // Implementors may report any `usize` (an endless generator reports usize::MAX; Vec<u8> reports
@@ -223,7 +223,14 @@ fn kx_chain_remaining_saturates_for_every_usize() {
     assert!(Buf::remaining(&t) == core::cmp::min(n, a.saturating_add(b)));
     let cm = crate::BufMut::chain_mut(Huge(a), Huge(b));
     assert!(crate::BufMut::remaining_mut(&cm) == a.saturating_add(b));
-    let lm = crate::BufMut::limit(cm, n);
-    assert!(crate::BufMut::remaining_mut(&lm) == core::cmp::min(n, a.saturating_add(b)));
+    let mut lm = crate::BufMut::limit(cm, n);
+    assert!(crate::BufMut::remaining_mut(&lm) == core::cmp::min(n, a.saturating_add(b)) && lm.limit() == n);
+    // the limit is a bound, not a promise: raising it later never reports more than the inner target accepts
+    let m: usize = kani::any();
+    lm.set_limit(m);
+    assert!(crate::BufMut::remaining_mut(&lm) == core::cmp::min(m, a.saturating_add(b)) && lm.limit() == m);
+    let mut t = t;
+    t.set_limit(m);
+    assert!(Buf::remaining(&t) == core::cmp::min(m, a.saturating_add(b)) && t.limit() == m);
     kani::cover!(a.checked_add(b).is_none(), "sum exceeds usize");
 }
